@@ -6,13 +6,17 @@ loaded through the real front end, in four execution modes) to that state one af
 other and decides by the seed when an enclosing construct "fails" (injects restore()) or
 "succeeds" (injects ok()), at any nesting depth, after any number of inner successes.
 
-Oracle (DESIGN.md section 6.3), deliberately outcome-agnostic:
-  O1 exact transition of every primitive event seen by the atom tap
+Oracle (DESIGN.md section 6.3), outcome-agnostic -- it never predicts whether an operator
+matches, it only looks at what the implementation itself did:
+  O1 exact transition of every primitive event seen by the rule tap
   O2 nothing ever raises
   O3 every restore() (the implementation's or the simulator's) is exact (bracket shadow)
-  O4 stack changes made inside a construct that FAILS by textbook PEG semantics (or inside
-     a predicate) are not visible afterwards  (model walked in lock-step; one-directional)
-  O5 a rule whose body is a predicate leaves the stack as it found it
+  O4 structural backtracking clause on the implementation's own call tree: every composite
+     rule in *normal form* (one operator over rule references) is checked at its own
+     boundaries -- an operand call that returned False must have left no stack change at
+     the next observation point (next operand call or the rule's return); a predicate rule
+     returns with the stack it was entered with; PUSH(x) adds exactly the text x matched
+  O5 = O4's predicate clause (any nesting depth)
 What is NOT asserted: PEG control flow itself (C03), interpreter == generated (C01),
 out-of-range PEEK slices, implicit trivia, failure labels, pairs.
 """
@@ -157,7 +161,12 @@ def spec_apply(spec, text: str, pos: int, stack: list[str]):
 
 
 def gen_toolbox(rng: random.Random) -> dict:
-    n_rules = rng.randint(6, 12)
+    """6-14 composite rules. About two thirds are in *normal form*: one operator whose
+    operands are rule references (atoms or earlier composites) -- these are the ones the
+    structural oracle O4 can judge exactly; nesting depth comes from rule nesting.  The
+    rest are inline random expressions (depth <= 3) that serve as operands and exercise
+    O1-O3 in nested inline contexts."""
+    n_rules = rng.randint(6, 14)
     atom_w = {n: 1.0 for n in ATOMS}
     for n in ("a_pop", "a_peek", "a_drop", "a_push_a", "a_push_ab", "a_pop_all", "a_peek_all"):
         atom_w[n] = rng.choice((2.0, 4.0))
@@ -165,33 +174,40 @@ def gen_toolbox(rng: random.Random) -> dict:
         atom_w[n] = rng.choice((1.5, 3.0))
     names = list(atom_w)
     weights = [atom_w[n] for n in names]
-    use_rep = rng.random() < 0.4
-    use_pushx = rng.random() < 0.5
+    use_rep = rng.random() < 0.5
+    use_pushx = rng.random() < 0.6
+    p_nf = rng.choice((0.5, 0.7, 0.9))
 
     rules: dict[str, dict] = {}
+    consuming: set[str] = set(LITERALS)  # rules that consume >= 1 char whenever they succeed
 
     def atom():
         return ["ref", rng.choices(names, weights)[0]]
 
+    def ref(prefer_comp=0.5):
+        if rules and rng.random() < prefer_comp:
+            return ["call", rng.choice(list(rules))]
+        return atom()
+
+    def progress_ref():
+        # operand of * + {..}: every successful evaluation consumes input or strictly
+        # shrinks the stack (well-formedness premise; guarantees termination)
+        cands = [["call", r] for r in rules if r in consuming]
+        if cands and rng.random() < 0.6:
+            return rng.choice(cands)
+        return ["ref", rng.choice(LITERALS + ("a_pop", "a_drop"))]
+
     def progress_body(depth):
-        # every successful iteration consumes input (literal first) or strictly shrinks
-        # the stack (single POP/DROP): guarantees termination of * + {n,}
         if rng.random() < 0.3:
             return ["ref", rng.choice(("a_pop", "a_drop"))]
         items = [["ref", rng.choice(LITERALS)]]
         for _ in range(rng.randint(0, 2)):
             items.append(expr(depth - 1))
-        rng.shuffle(items)
-        # the consuming literal must come first
-        lit = next(i for i, x in enumerate(items) if x[0] == "ref" and x[1] in LITERALS)
-        items.insert(0, items.pop(lit))
         return ["seq", items] if len(items) > 1 else items[0]
 
     def expr(depth):
         if depth <= 0 or rng.random() < 0.25:
-            if rules and rng.random() < 0.2:
-                return ["call", rng.choice(list(rules))]
-            return atom()
+            return ref(0.2)
         kinds = ["seq", "alt", "opt", "star", "plus", "and", "not"]
         w = [4, 3, 3, 1.5, 1, 1.5, 1.5]
         if use_rep:
@@ -212,18 +228,65 @@ def gen_toolbox(rng: random.Random) -> dict:
         rk = rng.choice(("exact", "min", "max", "minmax"))
         m = rng.randint(1, 2)
         n = m + rng.randint(1, 2)
-        # well-formed grammars never repeat an expression that can match empty (C07's premise)
         return ["rep", progress_body(depth), rk, m, n]
 
+    def normal_form():
+        kinds = ["seq", "alt", "opt", "star", "plus", "and", "not"]
+        w = [4, 3, 3, 1.5, 1, 2, 2]
+        if use_rep:
+            kinds.append("rep")
+            w.append(1.5)
+        if use_pushx:
+            kinds.append("pushx")
+            w.append(1)
+        k = rng.choices(kinds, w)[0]
+        if k in ("seq", "alt"):
+            return [k, [ref() for _ in range(rng.randint(2, 3))]]
+        if k in ("opt", "and", "not", "pushx"):
+            return [k, ref(0.7)]
+        if k in ("star", "plus"):
+            return [k, progress_ref()]
+        rk = rng.choice(("exact", "min", "max", "minmax"))
+        m = rng.randint(1, 2)
+        n = m + rng.randint(1, 2)
+        return ["rep", progress_ref(), rk, m, n]
+
+    def is_consuming(e):
+        k = e[0]
+        if k in ("ref", "call"):
+            return e[1] in consuming
+        if k == "seq":
+            return any(is_consuming(x) for x in e[1])
+        if k == "alt":
+            return all(is_consuming(x) for x in e[1])
+        if k in ("plus", "pushx"):
+            return is_consuming(e[1])
+        if k == "rep":
+            return e[2] in ("exact", "min", "minmax") and is_consuming(e[1])
+        return False
+
     for i in range(n_rules):
-        top = rng.random()
-        if top < 0.15:
-            e = [rng.choice(("and", "not")), expr(rng.randint(1, 3))]
-        else:
-            e = expr(rng.randint(1, 4))
-        mod = rng.choices(("", "_", "@", "$", "!"), (6, 3, 1, 0.5, 0.5))[0]
-        rules[f"c{i}"] = {"mod": mod, "ast": e}
+        e = normal_form() if rng.random() < p_nf else expr(rng.randint(1, 3))
+        mod = rng.choices(("", "_", "@", "$", "!"), (7, 2, 1, 0.5, 0.5))[0]
+        name = f"c{i}"
+        rules[name] = {"mod": mod, "ast": e}
+        if is_consuming(e):
+            consuming.add(name)
     return {"rules": rules}
+
+
+def operands(ast):
+    """Rule names of the operands if `ast` is in normal form, else None."""
+    k = ast[0]
+    if k in ("seq", "alt"):
+        ops = ast[1]
+    elif k in ("opt", "star", "plus", "and", "not", "pushx", "rep"):
+        ops = [ast[1]]
+    else:
+        return None
+    if all(o[0] in ("ref", "call") for o in ops):
+        return [o[1] for o in ops]
+    return None
 
 
 def render_expr(e) -> str:
@@ -258,160 +321,6 @@ def render_grammar(tb: dict) -> str:
     for name, r in tb["rules"].items():
         lines.append(f"{name} = {r['mod']}{{ {render_expr(r['ast'])} }}")
     return "\n".join(lines) + "\n"
-
-
-# ======================================================= textbook model (for O4 / O5)
-
-
-class ModelAbort(Exception):
-    pass
-
-
-class Model:
-    """Textbook PEG evaluation with full-copy rollback over (pos, stack of (id, text)).
-
-    Ids are relative: pre-existing entries are 0..n-1 bottom to top, pushes made during
-    the call get n, n+1, ... in execution order.  Besides its primitive event trace the
-    model records, between consecutive events, every stack it had *before* a rollback --
-    exactly the stacks an implementation would show if it kept the changes of a failed
-    construct."""
-
-    def __init__(self, tb, text, pos, stack_texts, cap=4000, rep_stop=False):
-        self.rep_stop = rep_stop  # bounded repetition stops at its first failed optional iteration
-        self.tb = tb
-        self.text = text
-        self.pos = pos
-        self.stack = [(i, t) for i, t in enumerate(stack_texts)]
-        self.next_id = len(stack_texts)
-        self.trace: list[dict] = []
-        self.cands: list[tuple] = []
-        self.steps = 0
-        self.cap = cap
-        self.rollbacks_effective = 0
-
-    def _rollback(self, saved, kind):
-        pos, stack = saved
-        self.cands.append((tuple(self.stack), kind))
-        if stack != self.stack:
-            self.rollbacks_effective += 1
-        self.pos = pos
-        self.stack = list(stack)
-
-    def _save(self):
-        return (self.pos, list(self.stack))
-
-    def _alts(self):
-        cur = tuple(self.stack)
-        out = [(s, k) for s, k in self.cands if s != cur]
-        self.cands = []
-        return out
-
-    def ev(self, e) -> bool:
-        self.steps += 1
-        if self.steps > self.cap:
-            raise ModelAbort
-        k = e[0]
-        if k == "ref":
-            name = e[1]
-            spec = ATOMS[name][1]
-            texts = [t for _, t in self.stack]
-            res, npos, nstack, specified = spec_apply(spec, self.text, self.pos, texts)
-            evd = {"atom": name, "pre_pos": self.pos, "pre": tuple(self.stack), "alts": self._alts(), "res": res, "specified": specified}
-            self.trace.append(evd)
-            if res:
-                # translate the text-level transition back to (id, text) entries
-                if len(nstack) == len(texts) + 1:
-                    self.stack.append((self.next_id, nstack[-1]))
-                    self.next_id += 1
-                elif len(nstack) < len(texts):
-                    del self.stack[len(nstack) :]
-                self.pos = npos
-            return res
-        if k == "call":
-            return self.ev(self.tb["rules"][e[1]]["ast"])
-        if k == "seq":
-            for x in e[1]:
-                if not self.ev(x):
-                    return False
-            return True
-        if k == "alt":
-            for x in e[1]:
-                s = self._save()
-                if self.ev(x):
-                    return True
-                self._rollback(s, "alternative")
-            return False
-        if k == "opt":
-            s = self._save()
-            if not self.ev(e[1]):
-                self._rollback(s, "optional")
-            return True
-        if k == "star":
-            return self._star(e[1])
-        if k == "plus":
-            if not self.ev(e[1]):
-                return False
-            return self._star(e[1])
-        if k in ("and", "not"):
-            s = self._save()
-            r = self.ev(e[1])
-            self._rollback(s, "predicate")
-            return r if k == "and" else not r
-        if k == "pushx":
-            start = self.pos
-            if not self.ev(e[1]):
-                return False
-            entry = (self.next_id, self.text[start : self.pos])
-            self.stack.append(entry)
-            self.next_id += 1
-            # an inline push is a stack change that is not a primitive event: an
-            # implementation that had kept the changes of a failed construct would now show
-            # them *plus* this entry
-            self.cands = [(s + (entry,), k) for s, k in self.cands]
-            return True
-        if k == "rep":
-            _, body, rk, m, n = e
-            if rk == "exact":
-                return all(self.ev(body) for _ in range(m))
-            if rk == "min":
-                for _ in range(m):
-                    if not self.ev(body):
-                        return False
-                return self._star(body)
-            if rk == "max":
-                lo, hi = 0, n
-            else:
-                lo, hi = m, n
-            for _ in range(lo):
-                if not self.ev(body):
-                    return False
-            for _ in range(hi - lo):
-                s = self._save()
-                if not self.ev(body):
-                    self._rollback(s, "repetition iteration")
-                    # pest's unrolled e? e? ... keeps trying (and fails again, the state being
-                    # restored); an implementation may equally stop here: two model variants
-                    if self.rep_stop:
-                        break
-            return True
-        raise ValueError(e)
-
-    def _star(self, body) -> bool:
-        while True:
-            s = self._save()
-            if not self.ev(body):
-                self._rollback(s, "repetition iteration")
-                return True
-
-
-def run_model(tb, rule_or_atom, text, pos, stack_texts, rep_stop=False):
-    m = Model(tb, text, pos, stack_texts, rep_stop=rep_stop)
-    node = ["ref", rule_or_atom] if rule_or_atom in ATOMS else ["call", rule_or_atom]
-    try:
-        res = m.ev(node)
-    except (ModelAbort, RecursionError):
-        return None
-    return {"res": res, "trace": m.trace, "final": tuple(m.stack), "final_pos": m.pos, "final_alts": m._alts(), "effective_rollbacks": m.rollbacks_effective}
 
 
 # ============================================= instrumentation (harness side, no hooks)
@@ -527,7 +436,8 @@ class Sim:
 
     def __init__(self):
         self.serial = 0
-        self.events: list[dict] = []
+        self.calls: list[dict] = []  # top-level call records of the current step
+        self.call_stack: list[dict] = []
         self.pending: list[tuple] = []
         self.current_atom: str | None = None
         self.restores = 0
@@ -536,13 +446,15 @@ class Sim:
 
 
 class Tap:
-    """Transparent proxy for an atom rule (interpreter) / wrapper for parse_<atom>
-    (generated): records the primitive trace."""
+    """Transparent proxy for a rule (interpreter: entry of parser.rules; generated: the
+    module global parse_<rule>).  Records the implementation's own call tree: for every
+    rule application its pre/post position and stack entries, result and child calls."""
 
     def __init__(self, name, target, holder):
         self._name = name
         self._target = target
         self._holder = holder  # dict with "sim"
+        self._is_atom = name in ATOMS
 
     def __getattr__(self, attr):
         return getattr(self._target, attr)
@@ -550,12 +462,18 @@ class Tap:
     def _record(self, fn, state, pairs):
         sim: Sim = self._holder["sim"]
         us = state.user_stack
-        pre_pos = state.pos
-        pre = us.entries() if hasattr(us, "entries") else None
-        sim.current_atom = self._name
+        rec = {"rule": self._name, "pre_pos": state.pos, "pre": us.entries() if hasattr(us, "entries") else None, "depth": len(getattr(state, "shadow", ())), "children": []}
+        (sim.call_stack[-1]["children"] if sim.call_stack else sim.calls).append(rec)
+        sim.call_stack.append(rec)
+        if self._is_atom:
+            sim.current_atom = self._name
         res = fn(state, pairs)
-        sim.current_atom = None
-        sim.events.append({"atom": self._name, "pre_pos": pre_pos, "pre": pre, "res": res, "post_pos": state.pos, "post": us.entries() if hasattr(us, "entries") else None, "depth": len(getattr(state, "shadow", ()))})
+        if self._is_atom:
+            sim.current_atom = None
+        sim.call_stack.pop()
+        rec["res"] = res
+        rec["post_pos"] = state.pos
+        rec["post"] = us.entries() if hasattr(us, "entries") else None
         return res
 
     def parse(self, state, pairs):  # interpreter entry
@@ -566,7 +484,7 @@ class Tap:
 
 
 class Mode:
-    def __init__(self, name, grammar_text, optimized, generated):
+    def __init__(self, name, grammar_text, optimized, generated, rule_names):
         from pest import Parser  # noqa: PLC0415
         from pest.grammar.optimizer import DEFAULT_OPTIMIZER_PASSES, Optimizer  # noqa: PLC0415
 
@@ -579,10 +497,10 @@ class Mode:
             src = self.parser.generate()
             self.module = types.ModuleType("toolbox_" + name.replace(" ", "_"))
             exec(compile(src, f"<gen:{name}>", "exec"), self.module.__dict__)  # noqa: S102
-            for a in ATOMS:
+            for a in rule_names:
                 self.module.__dict__["parse_" + a] = Tap(a, self.module.__dict__["parse_" + a], self.holder)
         else:
-            for a in ATOMS:
+            for a in rule_names:
                 self.parser.rules[a] = Tap(a, self.parser.rules[a], self.holder)
 
     def call(self, rule, state, pairs):
@@ -599,14 +517,6 @@ def impl_of(mode_name: str) -> str:
 
 
 # ================================================================= executing a history
-
-
-def rel(entries, base_ids):
-    """Normalise (serial, text) entries to the model's relative ids."""
-    out = []
-    for ser, t in entries:
-        out.append((base_ids.get(ser, ser), t))
-    return tuple(out)
 
 
 def check_event_O1(ev, text):
@@ -660,43 +570,89 @@ def check_event_O1(ev, text):
     return None
 
 
-def lockstep_O4(model, events, final_entries, base_ids, res):
-    """Walk the implementation's primitive trace along the model's.
+def flatten_calls(calls, out=None):
+    out = [] if out is None else out
+    for c in calls:
+        out.append(c)
+        flatten_calls(c["children"], out)
+    return out
 
-    Returns ("violation", clause, detail) | ("unattributed", why) | ("ok",)."""
-    mt = model["trace"]
-    for i in range(min(len(mt), len(events))):
-        me, ie = mt[i], events[i]
-        if me["atom"] != ie["atom"]:
-            return ("unattributed", "different-atom")
-        if ie["pre"] is None:
-            return ("unattributed", "serial-mirror-lost")
-        ipre = rel(ie["pre"], base_ids)
-        if ipre != me["pre"]:
-            for s, kind in me["alts"]:
-                if s == ipre:
-                    return ("violation", f"stack-changes-kept-after-failed-{kind.replace(' ', '-')}", {"event": i, "atom": ie["atom"], "stack_seen": [t for _, t in ipre], "stack_expected": [t for _, t in me["pre"]], "construct": kind})
-            # (same entries with another text can only come from an inline PUSH(e) whose e
-            # matched a different span: control flow, not a stack-operation defect)
-            return ("unattributed", "different-pre-stack")
-        if me["pre_pos"] != ie["pre_pos"]:
-            return ("unattributed", "different-position")
-        if me["res"] != ie["res"]:
-            return ("unattributed", "different-atom-result")  # O1 reports it if specified
-    if len(mt) != len(events):
-        return ("unattributed", "trace-length")
-    if model["res"] != res:
-        return ("unattributed", "different-result")
-    if res:
-        if final_entries is None:
-            return ("unattributed", "serial-mirror-lost")
-        ifin = rel(final_entries, base_ids)
-        if ifin != model["final"]:
-            for s, kind in model["final_alts"]:
-                if s == ifin:
-                    return ("violation", f"stack-changes-kept-after-failed-{kind.replace(' ', '-')}", {"event": "end", "stack_seen": [t for _, t in ifin], "stack_expected": [t for _, t in model["final"]], "construct": kind})
-            return ("unattributed", "different-final-stack")
-    return ("ok",)
+
+def check_structure_O4(rec, tb, text, stats):
+    """The backtracking clause, judged on the implementation's own call tree.
+
+    For a composite rule in normal form the direct child calls ARE the operand
+    evaluations, with their results as the implementation itself computed them:
+      * an operand evaluation that returned False (a failed optional body, alternative or
+        repetition iteration) must have left the stack, at the next observation point
+        (the next operand call, or the return of the rule if the rule itself succeeded),
+        exactly as it was when that evaluation started;
+      * a predicate rule returns with exactly the stack it was entered with, whatever the
+        result;
+      * PUSH(x): when x matched and the rule succeeded, the stack is x's stack plus the
+        text between the rule's start and x's end.
+    If the observed children do not have the expected shape (an operand was inlined by the
+    optimizer, a mirror was lost) the node is skipped and counted.  Returns a violation
+    tuple (where, clause, detail) or None."""
+    name = rec["rule"]
+    if name not in tb["rules"] or rec.get("post") is None or rec.get("pre") is None:
+        return None
+    ast = tb["rules"][name]["ast"]
+    ops = operands(ast)
+    if ops is None:
+        return None
+    k = ast[0]
+    ch = rec["children"]
+    if any(c.get("pre") is None or c.get("post") is None or "res" not in c for c in ch):
+        stats["structure_skipped"] += 1
+        return None
+
+    def texts(entries):
+        return [t for _, t in entries]
+
+    if k in ("and", "not"):
+        stats["structure_checked"] += 1
+        if rec["post"] != rec["pre"]:
+            return ("predicate", "predicate-changed-stack", {"rule": name, "body": render_expr(ast), "before": texts(rec["pre"]), "after": texts(rec["post"]), "result": rec["res"]})
+        return None
+    if k == "seq":
+        return None
+    names = [c["rule"] for c in ch]
+    if k == "alt":
+        shape_ok = names == ops[: len(names)] and all(not c["res"] for c in ch[:-1]) and (not ch or ch[-1]["res"] or len(ch) == len(ops))
+    elif k in ("opt", "pushx"):
+        shape_ok = names == ops
+    else:  # star plus rep
+        shape_ok = bool(names) and all(n == ops[0] for n in names)
+    if not shape_ok:
+        stats["structure_skipped"] += 1
+        return None
+    stats["structure_checked"] += 1
+    if k == "pushx":
+        x = ch[0]
+        if x["res"] and rec["res"]:
+            want = texts(x["post"]) + [text[rec["pre_pos"] : x["post_pos"]]]
+            if texts(rec["post"]) != want or [s for s, _ in rec["post"]][:-1] != [s for s, _ in x["post"]]:
+                return ("PUSH", "pushed-text-is-not-the-matched-text", {"rule": name, "body": render_expr(ast), "stack_after": texts(rec["post"]), "expected": want})
+        return None
+    construct = {"alt": "alternative", "opt": "optional"}.get(k, "repetition-iteration")
+    for i, c in enumerate(ch):
+        if c["res"]:
+            continue
+        if i + 1 < len(ch):
+            nxt = ch[i + 1]["pre"]
+        elif rec["res"]:
+            nxt = rec["post"]
+        else:
+            # the rule as a whole failed after this operand: whatever encloses the rule rolls
+            # back further, the stack at the rule's return is not an observation point
+            continue
+        stats["failed_operands_checked"] += 1
+        if c["post"] != c["pre"]:
+            stats["probe_failed_operand_had_changed_stack"] += 1
+        if nxt != c["pre"]:
+            return ("operator", f"stack-changes-kept-after-failed-{construct}", {"rule": name, "body": render_expr(ast), "failed_operand": c["rule"], "stack_when_it_started": texts(c["pre"]), "stack_at_next_observation": texts(nxt), "observed_at": "next operand" if i + 1 < len(ch) else "rule return"})
+    return None
 
 
 class HistoryRunner:
@@ -704,16 +660,6 @@ class HistoryRunner:
         self.tb = tb
         self.modes = modes
         self.ShadowState = shadow_state_cls
-        self.model_cache: dict = {}
-        self.has_bounded_rep = '"max"' in repr(tb).replace("'", '"') or '"minmax"' in repr(tb).replace("'", '"')
-
-    def model(self, rule, text, pos, stack_texts, rep_stop=False):
-        key = (rule, text, pos, tuple(stack_texts), rep_stop)
-        if key not in self.model_cache:
-            if len(self.model_cache) > 5000:
-                self.model_cache.clear()
-            self.model_cache[key] = run_model(self.tb, rule, text, pos, list(stack_texts), rep_stop)
-        return self.model_cache[key]
 
     def run(self, mode: Mode, text: str, steps: list, stats: dict):
         """Execute one history in one mode. Returns violation tuple or None."""
@@ -748,71 +694,38 @@ class HistoryRunner:
                     continue
                 pre_entries = state.user_stack.entries()
                 pre_pos = state.pos
-                base_ids = {ser: i for i, (ser, _) in enumerate(pre_entries)}
-                first_new = sim.serial + 1
-                n0 = len(pre_entries)
-                sim.events = []
+                sim.calls = []
+                sim.call_stack = []
                 state.checkpoint()
                 pairs: list = []
                 res = mode.call(rule, state, pairs)
                 stats["calls"] += 1
-                post_entries = state.user_stack.entries()
-                # map serials of pushes made during the call to model-relative ids
-                if post_entries is not None:
-                    for ev in sim.events:
-                        for ent in (ev["pre"] or []), (ev["post"] or []):
-                            for ser, _ in ent:
-                                if ser >= first_new and ser not in base_ids:
-                                    base_ids[ser] = n0 + (ser - first_new)
-                    for ser, _ in post_entries:
-                        if ser >= first_new and ser not in base_ids:
-                            base_ids[ser] = n0 + (ser - first_new)
-                # O3 (implementation's own restores)
+                # O3 (the implementation's own restores)
                 if sim.pending:
                     clause, detail = sim.pending[0]
                     return (impl, self.kind_of(rule), clause, si, detail)
-                # O1 on every primitive event
-                for ev in sim.events:
-                    stats["events"] += 1
-                    spec = ATOMS[ev["atom"]][1]
-                    if ev["pre"] is not None:
-                        dkey = (KIND[spec[0]], min(len(ev["pre"]), 2), min(ev["depth"] - 1, 2), bool(ev["res"]))
-                        stats["set_transitions"].add(dkey)
-                        if spec[0] in ("peek_all", "pop_all") and not ev["res"] and len(ev["pre"]) >= 2:
-                            pre_t = [t for _, t in ev["pre"]]
-                            if pre_t[-1] and text.startswith(pre_t[-1], ev["pre_pos"]):
-                                stats["probe_all_failed_midway"] += 1
-                        if not ev["pre"]:
-                            stats["probe_op_on_empty_stack"] += 1
-                    bad = check_event_O1(ev, text)
-                    if bad:
-                        return (impl, bad[0], bad[1], si, bad[2])
-                # O5 predicate-topped composite leaves the stack as found, whatever it returns
-                top = self.tb["rules"][rule]["ast"][0] if rule in self.tb["rules"] else None
-                if top in ("and", "not") and post_entries is not None and post_entries != pre_entries:
-                    return (impl, "predicate", "predicate-changed-stack", si, {"rule": rule, "before": [t for _, t in pre_entries], "after": [t for _, t in post_entries], "result": res})
-                # O4 lock-step with the textbook model
-                model = self.model(rule, text, pre_pos, [t for _, t in pre_entries])
-                if model is None:
-                    stats["model_aborted"] += 1
-                else:
-                    if model["effective_rollbacks"]:
-                        stats["probe_model_effective_rollback"] += 1
-                    verdict = lockstep_O4(model, sim.events, post_entries, base_ids, res)
-                    if verdict[0] != "ok" and self.has_bounded_rep:
-                        m2 = self.model(rule, text, pre_pos, [t for _, t in pre_entries], rep_stop=True)
-                        if m2 is not None:
-                            v2 = lockstep_O4(m2, sim.events, post_entries, base_ids, res)
-                            if v2[0] == "ok" or verdict[0] == "unattributed":
-                                verdict = v2
-                    if verdict[0] == "violation":
-                        return (impl, "operator", verdict[1], si, {**verdict[2], "rule": rule})
-                    if verdict[0] == "unattributed":
-                        stats["unattributed"][verdict[1]] = stats["unattributed"].get(verdict[1], 0) + 1
-                        if len(stats["sample_unattributed"]) < 3:
-                            stats["sample_unattributed"].append({"mode": mode.name, "rule": rule, "body": render_expr(self.tb["rules"][rule]["ast"]) if rule in self.tb["rules"] else ATOMS[rule][0], "text": text, "pos": pre_pos, "stack": [t for _, t in pre_entries], "why": verdict[1]})
+                for rec in flatten_calls(sim.calls):
+                    if rec["rule"] in ATOMS:
+                        # O1 on every primitive event
+                        stats["events"] += 1
+                        spec = ATOMS[rec["rule"]][1]
+                        if rec["pre"] is not None:
+                            dkey = (KIND[spec[0]], min(len(rec["pre"]), 2), min(rec["depth"] - 1, 2), bool(rec["res"]))
+                            stats["set_transitions"].add(dkey)
+                            if spec[0] in ("peek_all", "pop_all") and not rec["res"] and len(rec["pre"]) >= 2:
+                                pre_t = [t for _, t in rec["pre"]]
+                                if pre_t[-1] and text.startswith(pre_t[-1], rec["pre_pos"]):
+                                    stats["probe_all_failed_midway"] += 1
+                            if not rec["pre"]:
+                                stats["probe_op_on_empty_stack"] += 1
+                        bad = check_event_O1({"atom": rec["rule"], **rec}, text)
+                        if bad:
+                            return (impl, bad[0], bad[1], si, bad[2])
                     else:
-                        stats["lockstep_ok"] += 1
+                        # O4/O5 on the implementation's own call tree
+                        bad = check_structure_O4(rec, self.tb, text, stats)
+                        if bad:
+                            return (impl, bad[0], bad[1], si, bad[2])
                 if res:
                     open_brackets += 1  # bracket stays open: the enclosing construct is still undecided
                     if open_brackets > 6:
@@ -899,21 +812,20 @@ def gen_history(rng: random.Random, tb: dict):
 
 # --------------------------------------------------------------------------- the check
 
-STAT_KEYS = ("calls", "events", "injected_commit", "injected_fail", "call_failed_restored", "restores_seen", "effective_restores", "lockstep_ok", "model_aborted", "probe_all_failed_midway", "probe_op_on_empty_stack", "probe_model_effective_rollback")
+STAT_KEYS = ("calls", "events", "injected_commit", "injected_fail", "call_failed_restored", "restores_seen", "effective_restores", "structure_checked", "structure_skipped", "failed_operands_checked", "probe_failed_operand_had_changed_stack", "probe_all_failed_midway", "probe_op_on_empty_stack")
 
 
 def new_stats():
     st = {k: 0 for k in STAT_KEYS}
-    st["unattributed"] = {}
-    st["sample_unattributed"] = []
     st["sample_hangs"] = []
     st["set_transitions"] = set()
     st["nontrivial_flag"] = False
     return st
 
 
-def build_modes(grammar_text):
-    return [Mode(n, grammar_text, o, g) for n, o, g in MODES]
+def build_modes(grammar_text, tb):
+    names = list(ATOMS) + list(tb["rules"])
+    return [Mode(n, grammar_text, o, g, names) for n, o, g in MODES]
 
 
 def make_violation(v, tb, text, steps, mode_name, extra=None):
@@ -957,11 +869,15 @@ def run_batch(job) -> dict:
     samples = []
     n_hist = 0
     n_tb = 0
+    import hashlib  # noqa: PLC0415
+
+    log = hashlib.blake2b(digest_size=12)  # event-log digest: plans, verdicts and counters
     for _ in range(job["toolboxes"]):
         tb = gen_toolbox(rng)
         gtext = render_grammar(tb)
-        modes = build_modes(gtext)
+        modes = build_modes(gtext, tb)
         n_tb += 1
+        log.update(gtext.encode())
         runner = HistoryRunner(tb, modes, ShadowState)
         for _ in range(job["histories"]):
             text, steps = gen_history(rng, tb)
@@ -973,6 +889,7 @@ def run_batch(job) -> dict:
                 stats["mode_runs"] = stats.get("mode_runs", 0) + 1
                 if stats["nontrivial_flag"]:
                     nontrivial = True
+                log.update(repr((mode.name, text, steps, v, stats["events"], stats["restores_seen"], stats["structure_checked"])).encode())
                 if v is not None:
                     viol = make_violation(v, tb, text, steps, mode.name)
                     if viol["signature"] not in seen_sigs and len(violations) < 12:
@@ -990,8 +907,6 @@ def run_batch(job) -> dict:
             "toolboxes": n_tb,
             "mode_runs": stats.get("mode_runs", 0),
             "violating_mode_runs": stats.get("violating_mode_runs", 0),
-            "unattributed": stats["unattributed"],
-            "sample_unattributed": stats["sample_unattributed"],
             "hangs": stats.get("hangs", 0),
             "sample_hangs": stats["sample_hangs"],
             "set_transitions": sorted(stats["set_transitions"]),
@@ -999,7 +914,7 @@ def run_batch(job) -> dict:
             "sample_histories": samples,
         }
     )
-    return {"stats": out, "violations": violations}
+    return {"stats": out, "violations": violations, "digest": log.hexdigest()}
 
 
 def run_plan_child(plan):
@@ -1014,7 +929,7 @@ def run_plan_child(plan):
     for n, o, g in MODES:
         if plan.get("mode") and plan["mode"] != n:
             continue
-        mode = Mode(n, gtext, o, g)
+        mode = Mode(n, gtext, o, g, list(ATOMS) + list(tb["rules"]))
         runner = HistoryRunner(tb, [mode], ShadowState)
         v = run_capped(runner, mode, plan["text"], plan["steps"], stats)
         if v is not None:
@@ -1026,16 +941,24 @@ def run_plan_child(plan):
 
 FIXED_TOOLBOX = {
     "rules": {
-        "c0": {"mod": "", "ast": ["opt", ["seq", [["seq", [["ref", "a_pop"], ["opt", ["ref", "a_pop"]]]], ["ref", "l_b"], ["ref", "l_b"]]]]},
-        "c1": {"mod": "", "ast": ["seq", [["not", ["seq", [["ref", "a_push_a"], ["ref", "a_pop"]]]], ["ref", "a_peek"]]]},
-        "c2": {"mod": "_", "ast": ["alt", [["seq", [["ref", "a_pop"], ["ref", "l_a"]]], ["seq", [["ref", "a_drop"], ["ref", "l_b"]]], ["ref", "a_peek"]]]},
-        "c3": {"mod": "", "ast": ["seq", [["and", ["seq", [["ref", "a_push_a"], ["ref", "a_push_a"]]]], ["star", ["ref", "a_pop"]]]]},
-        "c4": {"mod": "", "ast": ["star", ["seq", [["ref", "l_a"], ["ref", "a_push_b"], ["opt", ["ref", "a_pop_all"]]]]]},
-        "c5": {"mod": "", "ast": ["alt", [["seq", [["ref", "a_pop_all"], ["ref", "l_ab"]]], ["seq", [["ref", "a_push_ab"], ["call", "c2"]]]]]},
-        "c6": {"mod": "", "ast": ["plus", ["seq", [["ref", "l_b"], ["alt", [["ref", "a_pop"], ["ref", "a_push_r"]]]]]]},
-        "c7": {"mod": "", "ast": ["and", ["seq", [["ref", "a_pop"], ["ref", "a_pop"]]]]},
-        "c8": {"mod": "", "ast": ["pushx", ["seq", [["ref", "l_a"], ["opt", ["ref", "a_pop"]]]]]},
-        "c9": {"mod": "", "ast": ["rep", ["seq", [["ref", "l_a"], ["ref", "a_pop"]]], "minmax", 1, 3]},
+        "s_pop_b": {"mod": "", "ast": ["seq", [["ref", "a_pop"], ["ref", "l_b"]]]},
+        "s_pop_pop": {"mod": "", "ast": ["seq", [["ref", "a_pop"], ["ref", "a_pop"]]]},
+        "s_push_pop": {"mod": "_", "ast": ["seq", [["ref", "a_push_a"], ["ref", "a_pop"], ["ref", "l_b"]]]},
+        "s_a_pop": {"mod": "", "ast": ["seq", [["ref", "l_a"], ["ref", "a_pop"]]]},
+        "o_pop_b": {"mod": "", "ast": ["opt", ["call", "s_pop_b"]]},
+        "o_inner": {"mod": "", "ast": ["opt", ["ref", "a_pop"]]},
+        "s_nest": {"mod": "", "ast": ["seq", [["ref", "a_pop"], ["call", "o_inner"], ["ref", "l_b"], ["ref", "l_b"]]]},
+        "o_nest": {"mod": "", "ast": ["opt", ["call", "s_nest"]]},
+        "alt3": {"mod": "", "ast": ["alt", [["call", "s_pop_b"], ["call", "s_push_pop"], ["ref", "a_peek"]]]},
+        "not_pp": {"mod": "", "ast": ["not", ["call", "s_push_pop"]]},
+        "and_pp": {"mod": "", "ast": ["and", ["call", "s_pop_pop"]]},
+        "star_ap": {"mod": "", "ast": ["star", ["call", "s_a_pop"]]},
+        "plus_ap": {"mod": "@", "ast": ["plus", ["call", "s_a_pop"]]},
+        "rep_ap": {"mod": "", "ast": ["rep", ["call", "s_a_pop"], "minmax", 1, 3]},
+        "px": {"mod": "", "ast": ["pushx", ["call", "star_ap"]]},
+        "s_all": {"mod": "", "ast": ["seq", [["ref", "a_pop_all"], ["ref", "l_ab"]]]},
+        "alt_all": {"mod": "", "ast": ["alt", [["call", "s_all"], ["call", "o_nest"]]]},
+        "inl": {"mod": "", "ast": ["opt", ["seq", [["seq", [["ref", "a_pop"], ["opt", ["ref", "a_pop"]]]], ["ref", "l_b"], ["ref", "l_b"]]]]},
     }
 }
 
@@ -1052,7 +975,7 @@ def run_hypothesis(job) -> dict:
     _, ShadowState = make_shadow_classes()
     tb = FIXED_TOOLBOX
     gtext = render_grammar(tb)
-    modes = build_modes(gtext)
+    modes = build_modes(gtext, tb)
     runner = HistoryRunner(tb, modes, ShadowState)
     callable_rules = list(tb["rules"]) + list(ATOMS)
     last = {"viol": None}
@@ -1248,10 +1171,10 @@ class Check:
 
     def assumptions(self):
         return [
-            "O4 is one-directional: it reports stack changes that survive a construct which fails by textbook PEG semantics (or a predicate); a construct that wrongly fails and is then correctly rolled back is a control-flow deviation (C03) and is counted as unattributed, not reported",
+            "O4 judges the backtracking clause only on composite rules in normal form (one operator over rule references), where operand results are observable at rule boundaries in all four modes; operators nested inline inside one rule body are covered by O1-O3 and by the enclosing normal-form rule only",
             "toolbox grammars define no WHITESPACE/COMMENT: implicit trivia inside PEEK_ALL/POP_ALL is unspecified by the statement",
             "out-of-range PEEK[a..b] results are not asserted (pest fails, this port clamps); the unconditional clauses still are",
-            "the spec functions in vpest/c05.py (spec_apply, Model) are trusted",
+            "spec_apply and check_structure_O4 in vpest/c05.py are trusted",
         ]
 
     def evidence(self, acc, tier):
@@ -1261,8 +1184,8 @@ class Check:
             "evaluations": acc.get("mode_runs", 0) + hyp.get("steps", 0),
             "distinct_nontrivial": len(acc.get("set_nontrivial", ())),
             "rule": (
-                "a seeded toolbox grammar (27 named atom rules for the seven stack operations + 6-12 random composite rules over ? * + | ~ & ! {n..} PUSH(e), "
-                "silent/atomic modifiers, sub-rule calls) is loaded through the real front end in four execution modes; a seeded history of "
+                "a seeded toolbox grammar (27 named atom rules for the seven stack operations + 6-14 composite rules over ? * + | ~ & ! {n..} PUSH(e), "
+                "about two thirds in normal form = one operator over rule references, the rest inline nested expressions; silent/atomic modifiers, sub-rule calls) is loaded through the real front end in four execution modes; a seeded history of "
                 "call(rule) / commit / fail / seek steps drives ONE live ParserState, every call bracketed by a simulator checkpoint whose later "
                 "commit or rollback is injected by the seed. evaluations = (history, mode) executions. A history is non-trivial when some rollback "
                 "(injected or performed by a real operator) was effective across an inner committed bracket; distinct = distinct (grammar, text, steps)."
@@ -1274,10 +1197,9 @@ class Check:
             "primitive_events_checked_O1": acc.get("events", 0),
             "restores_audited_O3": acc.get("restores_seen", 0),
             "effective_restores": acc.get("effective_restores", 0),
-            "lockstep_calls_fully_matched_O4": acc.get("lockstep_ok", 0),
-            "unattributed_divergences": acc.get("unattributed", {}),
-            "unattributed_samples": acc.get("sample_unattributed", [])[:3],
-            "model_aborted": acc.get("model_aborted", 0),
+            "normal_form_rule_applications_checked_O4": acc.get("structure_checked", 0),
+            "normal_form_rule_applications_skipped": {"count": acc.get("structure_skipped", 0), "why": "observed child calls did not have the operand shape (operand rule inlined by the optimizer, or serial mirror lost)"},
+            "failed_operand_evaluations_checked": acc.get("failed_operands_checked", 0),
             "executions_abandoned_at_wall_cap": {"count": acc.get("hangs", 0), "samples": acc.get("sample_hangs", [])[:2], "note": "a hang of the code under test is a totality matter (C07), not a C05 verdict"},
             "fault_kinds_fired": {
                 "injected rollback of an open enclosing bracket (fail)": acc.get("injected_fail", 0),
@@ -1285,8 +1207,8 @@ class Check:
                 "rollback after a failed call": acc.get("call_failed_restored", 0),
             },
             "distinct_primitive_transitions": {"count": len(trans), "measure": "(operation kind, stack depth 0/1/2+, open-bracket depth 0/1/2+, result)", "of_possible": 8 * 3 * 3 * 2},
-            "probes": {k: acc.get(k, 0) for k in ("probe_all_failed_midway", "probe_op_on_empty_stack", "probe_model_effective_rollback")},
+            "probes": {k: acc.get(k, 0) for k in ("probe_all_failed_midway", "probe_op_on_empty_stack", "probe_failed_operand_had_changed_stack")},
             "hypothesis_machines": hyp,
             "schedule_space": "trivial (single thread); the search is over operation histories and injected bracket outcomes",
-            "components": {"real": ["pest front end (scanner, grammar parser)", "optimizer", "interpreter expressions", "code generator + generated modules", "ParserState", "Stack"], "stub": [], "harness_instrumentation": ["atom tap (proxy rule / rebound parse_<atom>)", "ShadowState/ShadowStack subclasses (full-copy bracket shadow, serial mirror)"], "model": "spec_apply + Model in vpest/c05.py"},
+            "components": {"real": ["pest front end (scanner, grammar parser)", "optimizer", "interpreter expressions", "code generator + generated modules", "ParserState", "Stack"], "stub": [], "harness_instrumentation": ["atom tap (proxy rule / rebound parse_<atom>)", "ShadowState/ShadowStack subclasses (full-copy bracket shadow, serial mirror)"], "model": "spec_apply (exact transition of the seven operations) + structural clause check_structure_O4 in vpest/c05.py"},
         }
